@@ -877,3 +877,109 @@ Fixpoint helper_do_multi_cache (keys : list key) (resps : list rres) (ret : list
       end
     end
   end.
+
+(** * correspondence cases (printed by harness/cmd/obs_batch) *)
+
+Fixpoint msg_eqb (a b : msg) : bool :=
+  match a, b with
+  | Msg t1 s1 i1 v1, Msg t2 s2 i2 v2 =>
+    (t1 =? t2) && bytes_eqb s1 s2 && Z.eqb i1 i2 &&
+    (fix go (l1 l2 : list msg) : bool :=
+       match l1, l2 with
+       | [], [] => true
+       | x :: r1, y :: r2 => msg_eqb x y && go r1 r2
+       | _, _ => false
+       end) v1 v2
+  end.
+
+Definition err_eqb (a b : err) : bool :=
+  match a, b with
+  | ENil, ENil | EAborted, EAborted | EParse, EParse => true
+  | ERedis x, ERedis y => bytes_eqb x y
+  | EOther x, EOther y => x =? y
+  | _, _ => false
+  end.
+
+Definition rres_eqb (a b : rres) : bool :=
+  msg_eqb (r_val a) (r_val b) && option_eqb err_eqb (r_err a) (r_err b).
+
+Definition argv_eqb : argv -> argv -> bool := list_eqb bytes_eqb.
+
+Fixpoint assoc_argv {B : Type} (a : argv) (t : list (argv * B)) : option B :=
+  match t with
+  | [] => None
+  | (x, b) :: r => if argv_eqb a x then Some b else assoc_argv a r
+  end.
+
+Definition tab_lookup (t : list ((key * bytes) * lk)) (k : key) (c : bytes) : lk :=
+  match assoc_ck (k, c) t with Some x => x | None => LMiss end.
+Definition tab_srv (t : list (argv * msg)) (a : argv) : msg :=
+  match assoc_argv a t with Some m => m | None => ok_msg end.
+Definition tab_q (t : list (argv * msg)) (a : argv) : option msg := assoc_argv a t.
+
+Fixpoint assoc_N {B : Type} (n : N) (t : list (N * B)) : option B :=
+  match t with
+  | [] => None
+  | (x, b) :: r => if n =? x then Some b else assoc_N n r
+  end.
+
+Definition kvs_eqb (a b : list (key * msg)) : bool :=
+  list_eqb (fun x y => bytes_eqb (fst x) (fst y) && msg_eqb (snd x) (snd y)) a b.
+
+Definition sum_eqb {A B : Type} (ea : A -> A -> bool) (eb : B -> B -> bool) (x y : A + B) : bool :=
+  match x, y with
+  | inl a, inl b => ea a b
+  | inr a, inr b => eb a b
+  | _, _ => false
+  end.
+
+Inductive case :=
+(** pipe.DoMultiCache on one connection *)
+| CMulti (use_lru optin : bool) (batch : list item) (lks : list ((key * bytes) * lk))
+         (srvt qt : list (argv * msg)) (obs : result (list rres))
+(** pipe.DoCache on MGET / JSON.MGET *)
+| CMGet (optin : bool) (commands : argv) (lks : list ((key * bytes) * lk))
+        (srvt qt : list (argv * msg)) (obs : result rres)
+(** mux.DoMultiCache over [nwires] connections; [slots] gives cmd.Slot() per command *)
+| CMux (nwires : N) (optin : bool) (batch : list item) (slots : list (argv * N)) (lks : list ((key * bytes) * lk))
+       (srvt qt : list (argv * msg)) (obs : result (list rres))
+(** cluster.DoMultiCache; per connection server tables; [redir]: error text -> redirect *)
+| CCluster (optin : bool) (maxredir : nat) (batch : list item) (conns : list (argv * N)) (lkss : list (N * list ((key * bytes) * lk)))
+           (srvts qts : list (N * list (argv * msg))) (redir : list (bytes * redirect)) (obs : result (list rres + err))
+(** helper.go doMultiCache *)
+| CHelper (keys : list key) (resps : list rres) (obs : result (list (key * msg) + err)).
+
+Definition redirect_tab (t : list (bytes * redirect)) (r : rres) : redirect :=
+  match res_error r with
+  | Some (ERedis text) =>
+    (fix go (l : list (bytes * redirect)) : redirect :=
+       match l with
+       | [] => RNone
+       | (x, d) :: rest => if bytes_eqb x text then d else go rest
+       end) t
+  | _ => RNone
+  end.
+
+Definition check_case (c : case) : bool :=
+  match c with
+  | CMulti use_lru optin batch lks srvt qt obs =>
+    result_eqb (list_eqb rres_eqb)
+      (do_multi_cache (tab_lookup lks) (tab_srv srvt) (tab_q qt) optin use_lru batch) obs
+  | CMGet optin commands lks srvt qt obs =>
+    result_eqb rres_eqb (do_cache_mget (tab_lookup lks) (tab_srv srvt) (tab_q qt) optin commands) obs
+  | CMux nwires optin batch slots lks srvt qt obs =>
+    let slot_of := fun it => match assoc_argv (it_argv it) slots with Some s => s | None => 0 end in
+    let g := fun it => N.land (slot_of it) (nwires - 1) in
+    result_eqb (list_eqb rres_eqb)
+      (mux_do_multi_cache (fun _ items => do_multi_cache (tab_lookup lks) (tab_srv srvt) (tab_q qt) optin true items)
+                          nwires slot_of (distinct_groups (map g batch) []) batch) obs
+  | CCluster optin maxredir batch conns lkss srvts qts redir obs =>
+    let conn_of := fun it => assoc_argv (it_argv it) conns in
+    let tab := fun (ts : list (N * list (argv * msg))) c => match assoc_N c ts with Some t => t | None => [] end in
+    result_eqb (sum_eqb (list_eqb rres_eqb) err_eqb)
+      (cluster_do_multi_cache conn_of
+         (fun c items => do_multi_cache (tab_lookup (match assoc_N c lkss with Some t => t | None => [] end)) (tab_srv (tab srvts c)) (tab_q (tab qts c)) optin true items)
+         (fun _ _ => Panic) (redirect_tab redir) 64 [] maxredir batch) obs
+  | CHelper keys resps obs =>
+    result_eqb (sum_eqb kvs_eqb err_eqb) (helper_do_multi_cache keys resps []) obs
+  end.
